@@ -611,18 +611,7 @@ func execSize(c *hlib.Ctx, vertical bool, ranges []int64, excl []uint64, ms []pm
 	// oracle: the plan respects every mark (given and new), its size stays below the limit, and a plan
 	// over overlapping blocks has no downsampled block
 	allExcl := append(append([]uint64(nil), excl...), marked...)
-	uniform := true
-	for _, m := range ms {
-		if m.res != ms[0].res {
-			uniform = false
-		}
-	}
-	if uniform {
-		checkPlan(c, ranges, allExcl, ms, ids)
-	} else {
-		// blocks of different resolutions never share a group: only the given marks are asserted
-		checkPlan(c, ranges, excl, ms, ids)
-	}
+	checkPlan(c, ranges, allExcl, ms, ids)
 	byID := map[uint64]pmeta{}
 	for _, m := range ms {
 		byID[m.id] = m
@@ -801,7 +790,7 @@ func genC30(c *hlib.Ctx) {
 							ms[j].res = 300000
 						}
 					}
-					c.Count("vert:mixed-resolutions(outside-domain)")
+					c.Count("vert:mixed-resolutions")
 				default:
 					c.Count("vert:all-raw")
 				}
